@@ -107,11 +107,89 @@ def filesUnder (t : Tree) (p : Path) : List (Path × List Nat) :=
       | _ => none
     else none
 
-/-- a path as written by the user: components and whether it ends with `/` -/
-structure Loc where
-  path : Path
-  slash : Bool
+/-! ### URLs: `hailtop.utils.url_basename` / `url_join` (built on `urllib.parse.urlparse`) and `LocalAsyncFS._get_path` -/
+
+abbrev Str := List Char
+
+/-- the components of a local path -/
+def comps (s : Str) : Path :=
+  let rec go : Str → Str → List String
+    | [], cur => if cur = [] then [] else [String.ofList cur.reverse]
+    | c :: r, cur => if c = '/' then (if cur = [] then go r [] else String.ofList cur.reverse :: go r []) else go r (c :: cur)
+  go s []
+
+def stripPrefix? : Str → Str → Option Str
+  | [], s => some s
+  | _ :: _, [] => none
+  | a :: p, b :: s => if a = b then stripPrefix? p s else none
+
+/-- `file://localhost`, `file://` or nothing, and the rest -/
+def stripFilePrefix (s : Str) : Str × Str :=
+  match stripPrefix? ['f', 'i', 'l', 'e', ':', '/', '/', 'l', 'o', 'c', 'a', 'l', 'h', 'o', 's', 't'] s with
+  | some r => (['f', 'i', 'l', 'e', ':', '/', '/', 'l', 'o', 'c', 'a', 'l', 'h', 'o', 's', 't'], r)
+  | none =>
+    match stripPrefix? ['f', 'i', 'l', 'e', ':', '/', '/'] s with
+    | some r => (['f', 'i', 'l', 'e', ':', '/', '/'], r)
+    | none => ([], s)
+
+/-- `LocalAsyncFS._get_path`: the URL with the `file://[localhost]` prefix sliced off — nothing else is interpreted -/
+def getPath (url : Str) : Str := (stripFilePrefix url).2
+
+/-- cut at the first occurrence of `c`: (before, after) -/
+def cutAt (c : Char) (s : Str) : Str × Str := (s.takeWhile (· ≠ c), (s.dropWhile (· ≠ c)).drop 1)
+
+structure Parsed where
+  /-- scheme and netloc: `file://[localhost]` or empty -/
+  pre : Str
+  path : Str
+  params : Str
+  query : Str
+  frag : Str
   deriving DecidableEq, Repr
+
+/-- `urllib.parse.urlparse` on a local path or `file://` URL: the fragment starts at the first `#`, the query at the first `?`
+before it, the params (for a plain path, not for a `file://` URL) at the first `;` of the last path segment — also when these
+characters are simply part of a file name -/
+def urlparse (s : Str) : Parsed :=
+  let sp := stripFilePrefix s
+  let f := cutAt '#' sp.2
+  let q := cutAt '?' f.1
+  let dirPart := (q.1.reverse.dropWhile (· ≠ '/')).reverse
+  let lastSeg := (q.1.reverse.takeWhile (· ≠ '/')).reverse
+  -- `if scheme in uses_params and ';' in url`: the empty scheme has params, `file` has not
+  let pr := if sp.1 = [] then cutAt ';' lastSeg else (lastSeg, [])
+  ⟨sp.1, dirPart ++ pr.1, pr.2, q.2, f.2⟩
+
+/-- `urllib.parse.urlunparse` (empty params / query / fragment are dropped) -/
+def urlunparse (p : Parsed) : Str :=
+  p.pre ++ p.path ++ (if p.params = [] then [] else ';' :: p.params) ++ (if p.query = [] then [] else '?' :: p.query) ++
+    (if p.frag = [] then [] else '#' :: p.frag)
+
+def osBasename (p : Str) : Str := (p.reverse.takeWhile (· ≠ '/')).reverse
+
+/-- `os.path.join(a, b)` -/
+def osJoin (a b : Str) : Str :=
+  if b.head? = some '/' then b else if a = [] ∨ a.getLast? = some '/' then a ++ b else a ++ ['/'] ++ b
+
+/-- `url_basename(url) = os.path.basename(urlparse(url).path)` -/
+def urlBasename (url : Str) : Str := osBasename (urlparse url).path
+
+/-- `url_join(url, path) = urlunparse(parsed._replace(path=os.path.join(parsed.path, path)))` -/
+def urlJoin (url path : Str) : Str :=
+  let p := urlparse url
+  urlunparse { p with path := osJoin p.path path }
+
+def rstripSlash (s : Str) : Str := (s.reverse.dropWhile (· = '/')).reverse
+
+/-- a location as the user wrote it (relative to the scratch root): `/s/a/x.txt`, `/d/`, `file:///s/a`, … -/
+structure Loc where
+  raw : Str
+  deriving DecidableEq, Repr
+
+/-- what the file system operations see: `_get_path(raw)`, split into components -/
+def Loc.path (l : Loc) : Path := comps (getPath l.raw)
+
+def Loc.slash (l : Loc) : Bool := l.raw.getLast? = some '/'
 
 inductive Mode where
   | destDir | destIsTarget | inferDest
@@ -133,14 +211,24 @@ def effMode (x : Transfer) : Mode :=
 def destType (t : Tree) (x : Transfer) : Option Kind :=
   if ¬ x.single then some .dir else (t.get x.dest.path).map Node.kind
 
-/-- `SourceCopier._full_dest` -/
-def fullDest (t : Tree) (x : Transfer) (src : Loc) : Path × Option Kind :=
+/-- `SourceCopier._full_dest`, as the string the copier computes:
+`url_join(self.dest, url_basename(self.src.rstrip('/')))` when copying into a directory, else `self.dest` -/
+def fullDestStr (t : Tree) (x : Transfer) (src : Loc) : Str × Option Kind :=
   let m := effMode x
   let dt := if m = .inferDest then destType t x else none
   if m = .destDir ∨ (m = .inferDest ∧ dt = some .dir) then
-    (x.dest.path ++ [src.path.getLast?.getD ""], none)       -- url_join(dest, url_basename(src.rstrip('/')))
-  else if m = .destIsTarget ∧ x.dest.slash then (x.dest.path, some .dir)
-  else (x.dest.path, dt)
+    (urlJoin x.dest.raw (urlBasename (rstripSlash src.raw)), none)
+  else if m = .destIsTarget ∧ x.dest.slash then (x.dest.raw, some .dir)
+  else (x.dest.raw, dt)
+
+/-- where a file source is written: `_get_path` of the full destination -/
+def fullDest (t : Tree) (x : Transfer) (src : Loc) : Path × Option Kind :=
+  let fd := fullDestStr t x src
+  (comps (getPath fd.1), fd.2)
+
+/-- where the file at relative path `rel` below a directory source is written: `url_join(full_dest, relsrcfile)` -/
+def fileDest (t : Tree) (x : Transfer) (src : Loc) (rel : Path) : Path :=
+  comps (getPath (urlJoin (fullDestStr t x src).1 (List.intercalate ['/'] (rel.map String.toList))))
 
 /-- `staturl(dest)` inside `Copier._dest_type` (INFER_DEST, one source, no trailing slash) catches only FileNotFoundError:
 when an ancestor of `dest` is a regular file the OS answers ENOTDIR and NotADirectoryError escapes from `_full_dest` -/
@@ -148,8 +236,9 @@ def destStatFails (t : Tree) (x : Transfer) : Bool :=
   effMode x = .inferDest && x.single &&
     (List.range x.dest.path.length).any (fun k => 0 < k && isFile (t.get (x.dest.path.take k)))
 
-def writeAll (t : Tree) (fd : Path) (fs : List (Path × List Nat)) : Except Err Tree :=
-  fs.foldlM (fun t f => writeFile t (fd ++ f.1) f.2) t
+/-- write every listed file at the destination `dest` assigns to its relative path -/
+def writeAll (t : Tree) (dest : Path → Path) (fs : List (Path × List Nat)) : Except Err Tree :=
+  fs.foldlM (fun t f => writeFile t (dest f.1) f.2) t
 
 /-- `SourceCopier.copy`: `copy_as_file` and `copy_as_dir` for one source -/
 def copySource (t : Tree) (x : Transfer) (src : Loc) : Except Err Tree :=
@@ -161,7 +250,7 @@ def copySource (t : Tree) (x : Transfer) (src : Loc) : Except Err Tree :=
   | some .dir, _ =>
     let fd := fullDest t x src
     if destStatFails t x then .error .notADir
-    else if fd.2 = some .file then .error .notADir else writeAll t fd.1 (filesUnder t src.path)
+    else if fd.2 = some .file then .error .notADir else writeAll t (fileDest t x src) (filesUnder t src.path)
   | _, _ => .error .notFound            -- missing, or a file named with a trailing slash
 
 /-- `Copier._copy_one_transfer` (`Transfer.__init__` rejects a source list with DEST_IS_TARGET) -/
